@@ -22,7 +22,7 @@ RULE = (
     'urls: abstract stylesheets of the C02 generator (url() at the top level of values and inside functions, in style '
     'rules, @media, @page, margin boxes, @font-face; @import in string and url() form) rendered in a random spelling: '
     'getUrls must equal the list the model predicts (imports first, then document order; the parts of one @page rule as '
-    'a multiset); replaceUrls with a recording injective replacer is called once per predicted URL, getUrls afterwards is '
+    'in the order own declarations, margin boxes); replaceUrls with a recording injective replacer is called once per predicted URL, getUrls afterwards is '
     'the mapped list (also after serialise+reparse), applying the inverse replacer gives back the original '
     'serialisation, the identity replacer leaves the serialisation unchanged, ignoreImportRules leaves imports alone, '
     'and the declaration-level dispatch only touches its declaration. flatten: import trees over a dict-backed virtual '
@@ -76,10 +76,11 @@ def model_urls(m):
         if k == 'style' or k == 'fontface':
             groups.append((True, block_urls(s['block'])))
         elif k == 'page':
+            # the declarations of the page itself, then its margin boxes (the order cssutils stores and writes them in)
             u = block_urls(s['block'])
             for mb in s['margins']:
                 u += block_urls(mb['block'])
-            groups.append((False, u))
+            groups.append((True, u))
         elif k == 'media':
             for r in s['rules']:
                 stmt(r)
@@ -257,7 +258,7 @@ def tree(draw, local=False):
             rules.append({'k': draw(st.sampled_from(KINDS)),
                           'urls': draw(st.lists(st.sampled_from(URLFORMS), min_size=0, max_size=2)),
                           'quote': draw(st.sampled_from(['', '"', "'"]))})
-        files.append({'dir': d, 'imports': imports, 'rules': rules, 'charset': draw(st.booleans())})
+        files.append({'dir': d, 'imports': imports, 'rules': rules, 'charset': draw(st.booleans()), 'open_end': draw(st.integers(0, 3)) == 0})
     return {'files': files}
 
 
@@ -317,7 +318,13 @@ def render_file(t, i, base=None):
             out.append('@namespace %s "http://ns.example/%s";' % (rid, rid))
         elif k == 'comment':
             body.append('/* %s */' % rid)
-    return '\n'.join(out + body)
+    text = '\n'.join(out + body)
+    if f.get('open_end') and body and body[-1].endswith('}') and i != 0:
+        # the end of the input closes what is open
+        text = text[:-1].rstrip()
+        if text.endswith('}'):
+            text = text[:-1].rstrip()  # @media ... { ... { ...
+    return text
 
 
 def edge_target(t, i, n, base=None):
@@ -638,3 +645,48 @@ SUBS = [
     Sub('flatten', check_flatten, strategy=flatten_strategy, quick=1500, thorough=150000, shards_quick=8),
     Sub('combine', check_combine, strategy=combine_strategy, quick=300, thorough=20000, shards_quick=8),
 ]
+
+
+# --------------------------------------------------------------------------- listed findings
+
+
+def listed_cases(tier):
+    yield {'tag': 'variables'}
+    yield {'tag': 'namespaces'}
+
+
+def check_listed(case, ctx):
+    saved = cssutils.log.raiseExceptions
+    cssutils.log.raiseExceptions = False
+    old = cssutils.ser.prefs.resolveVariables
+    try:
+        ctx.case(case['tag'], True, case)
+        if case['tag'] == 'variables':
+            fs = {'http://h/sub/a.css': '@variables { bg: url(img/v.png) } q { background: var(bg); cursor: url(img/c.png), auto }'}
+            main = '@import "sub/a.css";'
+            sheet = cssutils.CSSParser(fetcher=lambda u: (None, fs[u]) if u in fs else None).parseString(main, href='http://h/m.css')
+            imp = sheet.cssRules[0].styleSheet
+            got = list(cssutils.getUrls(imp))
+            cssutils.ser.prefs.resolveVariables = True
+            flat = cssutils.resolveImports(sheet).cssText.decode()
+            if 'img/v.png' not in got or 'url(sub/img/v.png)' not in flat:
+                raise Violation('listed:url-in-variables-not-enumerated', f'getUrls of the imported sheet: {got}; flattened: {flat!r}')
+        else:
+            fs = {'http://h/a.css': '@namespace x "urn:one"; x|q { top: 0 }', 'http://h/b.css': '@namespace x "urn:two"; x|q { left: 0 }'}
+            sheet = cssutils.CSSParser(fetcher=lambda u: (None, fs[u]) if u in fs else None).parseString('@import "a.css"; @import "b.css";', href='http://h/m.css')
+            flat = cssutils.resolveImports(sheet)
+            re_ = cssutils.parseString(flat.cssText)
+            uris = []
+            for r in re_.cssRules:
+                if r.type == r.STYLE_RULE:
+                    for item in r.selectorList[0].seq:
+                        if isinstance(item.value, tuple):
+                            uris.append(item.value[0])
+            if uris != ['urn:one', 'urn:two'] and not any(r.type == r.IMPORT_RULE for r in flat.cssRules):
+                raise Violation('listed:flattening-merges-namespace-scopes', f'{flat.cssText!r}: the two q rules select in {uris}')
+    finally:
+        cssutils.ser.prefs.resolveVariables = old
+        cssutils.log.raiseExceptions = saved
+
+
+SUBS.append(Sub('listed', check_listed, enumerate=listed_cases, shards_quick=1, shards_thorough=1))
